@@ -11,7 +11,7 @@ MANIFEST = dict(
          "lexer_errors_never_panic_compose, parser_error_compose_panics (the C13 byte-span witness), linear step bounds for the offset and "
          "line/column computation; splitter_unwraps_succeed (on the mirror of split_off_back / anchor_split, tied to the code by replaying every "
          "recorded call under C07: for a well-formed pipeline the unwraps of the atomic Select, of the preceding part's final Select and of the "
-         "declaration of every column at the split cannot fail); every model function is total. Everything else (stack depth, wall time, the unwrap/index sites outside "
+         "declaration of every column at the split cannot fail), atomic_part_has_exactly_one_select (the `exactly_one().unwrap()` of translate_select_pipeline: the atomic part the splitter hands over holds exactly one Select, for every pipeline), and - proved under C01 - stages_leave_only_placeable_transforms (no Append / partitioned Take survives the preprocess stages, which the splitter and the clause assembly have no rule for); every model function is total. Everything else (stack depth, wall time, the unwrap/index sites outside "
          "the modelled kernels) is explored: every public entry point (lex_source, prql_to_tokens, prql_to_pl, pl_to_prql, pl_to_rq, "
          "compile for all 12 dialects, the staged JSON chain, json::to_pl / to_rq -> rq_to_sql) is run in child processes (catch_unwind per "
          "request, process death and timeouts detected) on all short strings over a significant alphabet, token-level mutants of the "
@@ -922,7 +922,7 @@ def nesting_shapes(ctx, ex):
 def run(ctx):
     br = vlib.standard_proof_obligations(ctx, ["PrqlModel.Props.C12"], [],
         required_theorems=["error_compose_no_panic", "compose_panic_sites", "lexer_errors_never_panic_compose",
-                           "parser_error_compose_panics", "offset_conversion_linear", "lineCol_linear", "splitter_unwraps_succeed"])
+                           "parser_error_compose_panics", "offset_conversion_linear", "lineCol_linear", "splitter_unwraps_succeed", "atomic_part_has_exactly_one_select"])
     thorough = ctx.tier == "thorough"
     ctx.rule = ("(i) every string of length <= 3 over a 30-character alphabet (thorough: also length 4 over its first 16 characters) through lex, tokens, pl, fmt, rq, compile, staged; (ii) every integration-test query and book example through "
                 "all entry points and all 12 dialects, seeded token-level mutants of them (delete / duplicate / swap / replace / insert "
